@@ -192,11 +192,14 @@ class BekernTokenizer(Tokenizer):
         if DECORATION_SEPARATOR not in ekern_content:
             return ekern_content
 
-        reduced_content = ekern_content.split(DECORATION_SEPARATOR)[0]  # Discard all decoration tokens
-        if reduced_content.endswith(TOKEN_SEPARATOR):
-            reduced_content = reduced_content[:-1] # Remove the last TOKEN_SEPARATOR if it exists
+        reduced_notes = []
+        for note_content in ekern_content.split(' '):  # the notes of a chord are reduced one by one
+            reduced_note = note_content.split(DECORATION_SEPARATOR)[0]  # Discard all decoration tokens
+            if reduced_note.endswith(TOKEN_SEPARATOR):
+                reduced_note = reduced_note[:-1] # Remove the last TOKEN_SEPARATOR if it exists
+            reduced_notes.append(reduced_note)
 
-        return reduced_content
+        return ' '.join(reduced_notes)
 
 
 class BkernTokenizer(Tokenizer):
